@@ -285,6 +285,17 @@ Proof.
   eapply take_digits_nonneg; eauto.
 Qed.
 
+
+Lemma lone_point_eq : forall (neg : bool) (r1 r2 : bytes) (d : dec),
+  (match r1, r2 with 46 :: _, [] => Some (DFin neg 0 0) | _, _ => None end) = Some d -> d = DFin neg 0 0.
+Proof.
+  intros neg r1 r2 d. destruct r1 as [|b r]; [discriminate|].
+  destruct (Z.eq_dec b 46) as [->|Hb].
+  - destruct r2; [intros H; inversion H; reflexivity | discriminate].
+  - destruct b as [|p|p]; try discriminate.
+    repeat (destruct p as [p|p|]; try discriminate). exfalso; apply Hb; reflexivity.
+Qed.
+
 (* parse_dec_body yields NaN only for the literal text "nan" (any case) *)
 Lemma parse_dec_body_ok : forall neg s d, parse_dec_body neg s = Some d ->
   dec_ok d \/ (d = DNaN /\ map lower_byte s = [110; 97; 110]).
@@ -300,7 +311,7 @@ Proof.
     match T with context [r1] => destruct T as [[[c nf] nd] r2] eqn:T2 end
   end.
   assert (HF : 0 <= c) by (eapply (frac_nonneg ip ni r1); [exact Hip | exact T2]).
-  destruct (nd =? 0); [discriminate|].
+  destruct (nd =? 0); [intros H; apply lone_point_eq in H; subst d; left; unfold dec_ok; lia|].
   destruct r2 as [|b2 r].
   { pose proof (fit_ok neg c (- nf) HF) as HO. destruct (fit neg c (- nf));
       intros H; inversion H; subst; left; exact HO. }
@@ -1196,7 +1207,7 @@ Proof.
   | |- context [match ?T with pair _ _ => _ end] =>
     match T with context [r1] => destruct T as [[[c nf] nd] r2] end
   end.
-  destruct (nd =? 0); [discriminate|].
+  destruct (nd =? 0); [intros H; apply lone_point_eq in H; subst d; eauto|].
   destruct r2 as [|b2 r].
   { destruct (fit neg c (- nf)); intros H; inversion H; subst; first [congruence | eauto]. }
   destruct ((b2 =? 101) || (b2 =? 69)); [|discriminate].
